@@ -26,7 +26,8 @@ from elementpath.helpers import numeric_equal, numeric_not_equal, \
     node_position, get_double
 from elementpath.namespaces import XSD_ERROR, get_namespace, get_expanded_name
 from elementpath.datatypes import UntypedAtomic, QName, AnyURI, \
-    Duration, Integer, DoubleProxy10, AbstractDateTime
+    Duration, Integer, DoubleProxy10, AbstractDateTime, GregorianDay, GregorianMonth, \
+    GregorianMonthDay, GregorianYear, GregorianYearMonth
 from elementpath.xpath_nodes import ElementNode, DocumentNode, XPathNode, AttributeNode
 from elementpath.sequences import xlist
 from elementpath.sequence_types import is_instance
@@ -508,6 +509,11 @@ def led__value_comparison_operators(self: XPathToken, left: XPathToken) -> XPath
     return self
 
 
+GREGORIAN_TYPES = (
+    GregorianDay, GregorianMonth, GregorianMonthDay, GregorianYear, GregorianYearMonth
+)
+
+
 @method('eq')
 @method('ne')
 @method('lt')
@@ -540,7 +546,10 @@ def evaluate__value_comparison_operators(self: XPathToken, context: ta.ContextTy
             return self.symbol in ('le', 'ge')
 
     cls0, cls1 = type(operands[0]), type(operands[1])
-    if cls0 is cls1 and cls0 is not Duration:
+    if self.symbol not in ('eq', 'ne') and any(isinstance(x, GREGORIAN_TYPES) for x in operands):
+        msg = "cannot apply {} between {!r} and {!r}".format(self, *operands)
+        raise self.error('XPTY0004', msg)
+    elif cls0 is cls1 and cls0 is not Duration:
         pass
     elif all(isinstance(x, float) for x in operands):
         pass
@@ -550,8 +559,6 @@ def evaluate__value_comparison_operators(self: XPathToken, context: ta.ContextTy
     elif all(isinstance(x, (int, Decimal)) for x in operands):
         pass
     elif all(isinstance(x, (str, UntypedAtomic, AnyURI)) for x in operands):
-        pass
-    elif all(isinstance(x, (str, UntypedAtomic, QName)) for x in operands):
         pass
     elif all(isinstance(x, (float, Decimal, int)) for x in operands):
         if isinstance(operands[0], float):
